@@ -21,6 +21,7 @@ Print Assumptions C15_fasta_wrapped_at_60.
 
 Theorem C15_fasta_pieces_are_the_row : forall row, concat (chunk60 row) = row.
 Proof. exact chunk60_concat. Qed.
+Print Assumptions C15_fasta_pieces_are_the_row.
 
 Theorem C15_fasta_file_is_lines : forall rows, write_fasta rows = unlines (fasta_lines rows).
 Proof. exact write_fasta_unlines. Qed.
